@@ -121,6 +121,10 @@ package syntax
 //@   ensures [C05,C01] ok-matcher: result1 == nil ==> segMatcher(result0)
 //@   ensures [C05,C01] ok-regexp: result1 == nil ==> segRegexp(result0)
 //@   ensures [C05] err: result1 != nil ==> result0 == nil
+// What the properties need of a regexp rule and the code does not check (known finding, see known_findings.txt): the
+// rule is spliced into "(?P<name>" rule ")" tail without being compiled on its own, and '{' '}' inside it are taken
+// for token delimiters. Every functional clause about regexp segments is stated for self-contained rules only.
+//@   ensures [C01,C02,C03,C05,C10,C17] rule-self-contained: result1 == nil && result0.Type == 2 ==> selfContained(result0.rule)
 //@   ensures [C02] string: result1 == nil && (indexOf(val, "{") == -1 || indexOf(val, "}") == -1) ==> result0.Type == 0
 //
 //@ pred shapeOK(val string) = indexOf(val, "{") <= 0 || indexOf(val, "}") == -1
